@@ -64,7 +64,7 @@ pub fn gen_case4(prop: &str, seed: u64, thorough: bool, rng: &mut Rng) -> Case {
             let mut ops = vec![];
             for _ in 0..n {
                 let second = cfg.second_index_reader && rng.chance(1, 2);
-                let op = match rng.weighted(&[18, 14, 8, 6, 14, 10, 8, 6, 10, 6, 6, 6]) {
+                let op = match rng.weighted(&[18, 14, 8, 6, 14, 10, 8, 6, 10, 6, 6, 6, 6]) {
                     0 => Op::CreateWriter { kind: 0, second_index: second },
                     1 => Op::DropWriter,
                     2 => Op::Rollback,
@@ -76,7 +76,8 @@ pub fn gen_case4(prop: &str, seed: u64, thorough: bool, rng: &mut Rng) -> Case {
                     8 => Op::Add(g.doc(cfg.nkeys)),
                     9 => Op::Commit,
                     10 => Op::FaultyRollback,
-                    _ => Op::WaitMergesRace,
+                    11 => Op::WaitMergesRace,
+                    _ => Op::DropRace,
                 };
                 ops.push(op);
             }
@@ -889,6 +890,84 @@ fn lock_op(e: &mut Exec, op: &Op) {
                 }
             }
         }
+        Op::DropRace => {
+            if e.writer.is_none() {
+                return;
+            }
+            // a backlog of uncommitted documents: the indexing workers are busy when the writer is dropped
+            for k in 0..6u64 {
+                e.exec_op(&Op::Add(DocSpec { uid: 8_000_000 + sched::step() * 8 + k, key: 8, body: vec![5], tag: 0, sortv: None, js: 0 }));
+            }
+            if e.stop || !e.out.violations.is_empty() || e.writer.is_none() {
+                return;
+            }
+            let old_max_task = sched::OUT.with(|o| o.borrow().max_tasks);
+            let done = Arc::new(AtomicBool::new(false));
+            let results: Arc<StdMutex<Vec<(String, u64)>>> = Arc::new(StdMutex::new(vec![]));
+            let mut hs = vec![];
+            for t in 0..2usize {
+                let idx = if t % 2 == 1 { pick_index(e, true) } else { e.index.clone() };
+                let cfg2 = cfg.clone();
+                let done2 = done.clone();
+                let res = results.clone();
+                let name = format!("contender{t}");
+                let name2 = name.clone();
+                if let Ok(h) = shuttle::thread::Builder::new().name(name).spawn(move || {
+                    for _ in 0..6 {
+                        if done2.load(Ordering::SeqCst) {
+                            break;
+                        }
+                        if let Ok(w) = idx.writer_with_options::<tantivy::TantivyDocument>(writer_opts(0, &cfg2)) {
+                            let a = sched::step();
+                            drop(w);
+                            res.lock().unwrap().push((name2.clone(), a));
+                            break;
+                        }
+                        shuttle::thread::yield_now();
+                    }
+                }) {
+                    hs.push(h);
+                }
+            }
+            e.pending_merges.clear();
+            let w = e.writer.take().unwrap();
+            let r = catch(|| drop(w));
+            done.store(true, Ordering::SeqCst);
+            for h in hs {
+                let _ = h.join();
+            }
+            e.model.rollback();
+            e.last_stamp = None;
+            e.txn_ops = 0;
+            e.out.probe("drop_race");
+            if let Err(p) = r {
+                e.out.violate("C18", "panic_on_calling_thread", format!("drop(writer): {p}"));
+            }
+            // Sound evidence of two writers alive: an *indexing worker* of the dropped writer (drop() joins
+            // the workers before the lock guard goes away; merge threads are not waited for by drop() and do
+            // not count) still issued a storage operation after another writer had been created.
+            for (who, a) in results.lock().unwrap().iter() {
+                e.out.probe("drop_race_contender_won");
+                let late: Option<String> = e.dir.with(|st| {
+                    st.log.iter().rev().find_map(|r| {
+                        let name = &st.tasks[r.task as usize];
+                        let id: usize = name.rsplit('#').next().and_then(|x| x.parse().ok()).unwrap_or(usize::MAX);
+                        if r.step > *a && id != 0 && id < old_max_task && name.starts_with("thrd-tantivy-index") {
+                            Some(format!("{name} {:?} {} at step {}", r.kind, st.paths[r.path as usize].display(), r.step))
+                        } else {
+                            None
+                        }
+                    })
+                });
+                if let Some(l) = late {
+                    e.out.violate(
+                        "C18",
+                        "two_writers_alive",
+                        format!("{who} created a writer at step {a} while an indexing worker of the dropped writer was still working: {l}"),
+                    );
+                }
+            }
+        }
         Op::KillWorker => {
             if e.writer.is_none() {
                 return;
@@ -993,7 +1072,41 @@ fn body_damage(case: &Case) -> RunOut {
             e.out.violate("C20", "footer_unparseable", format!("{} has no parseable footer", f.display()));
             break;
         };
-        // reading back yields exactly the body
+        // reading back through the index directory yields exactly the body (both read entry points)
+        {
+            let dir = e.index.directory();
+            let body = &data[..body_len];
+            match catch(|| dir.open_read(f).and_then(|s| s.read_bytes().map_err(|x| tantivy::directory::error::OpenReadError::wrap_io_error(x, f.clone())))) {
+                Ok(Ok(b)) if b.as_slice() == body => {}
+                Ok(Ok(b)) => {
+                    e.out.violate("C20", "readback_mismatch", format!("open_read({}) yields {} bytes, the written content has {}", f.display(), b.len(), body_len));
+                    break;
+                }
+                Ok(Err(x)) => {
+                    e.out.violate("C20", "readback_mismatch", format!("open_read({}) of an intact file: {x:?}", f.display()));
+                    break;
+                }
+                Err(p) => {
+                    e.out.violate("C20", "readback_mismatch", format!("open_read({}) panics: {p}", f.display()));
+                    break;
+                }
+            }
+            match catch(|| dir.get_file_handle(f).map(|h| (h.len(), h.read_bytes(0..h.len().min(body_len))))) {
+                Ok(Ok((len, Ok(b)))) if len == body_len && b.as_slice() == body => {}
+                Ok(Ok((len, r))) => {
+                    e.out.violate("C20", "readback_mismatch", format!("get_file_handle({}) has length {len} (read ok: {}), the written content has {body_len} bytes", f.display(), r.map(|b| b.as_slice() == body).unwrap_or(false)));
+                    break;
+                }
+                Ok(Err(x)) => {
+                    e.out.violate("C20", "readback_mismatch", format!("get_file_handle({}) of an intact file: {x:?}", f.display()));
+                    break;
+                }
+                Err(p) => {
+                    e.out.violate("C20", "readback_mismatch", format!("get_file_handle({}) panics: {p}", f.display()));
+                    break;
+                }
+            }
+        }
         let mut damages: Vec<(String, Vec<u8>)> = vec![];
         let all_bits = if thorough { body_len <= 4096 } else { body_len <= 96 };
         if all_bits {
@@ -1078,7 +1191,17 @@ fn body_damage(case: &Case) -> RunOut {
                 let mut img2 = img.clone();
                 img2.insert(f.clone(), d);
                 let dd = SimDir::from_image(&img2, true);
-                let res = catch(|| Index::open(simdir::boxed(&dd)).and_then(|i| i.directory().open_read(f).map(|_| ()).map_err(tantivy::TantivyError::from)));
+                // alternate between the two read entry points of the index directory
+                let via_handle = cases % 2 == 0;
+                let res = catch(|| {
+                    Index::open(simdir::boxed(&dd)).and_then(|i| {
+                        if via_handle {
+                            i.directory().get_file_handle(f).map(|_| ()).map_err(tantivy::TantivyError::from)
+                        } else {
+                            i.directory().open_read(f).map(|_| ()).map_err(tantivy::TantivyError::from)
+                        }
+                    })
+                });
                 match res {
                     Err(p) => {
                         e.out.violate("C20", "open_read_panic", format!("format version '{}' in {}: {p}", v as char, f.display()));
@@ -1388,7 +1511,7 @@ fn linearize(base: &[DocSpec], recs: &[ProdRec], observed: &dump::Dump, f: &Fiel
 pub fn exec_special4(e: &mut Exec, op: &Op) {
     match op {
         Op::Reload(_) | Op::Hold(_) | Op::Recheck => main_reader_op(e, op),
-        Op::CreateWriter { .. } | Op::NewWriterAttempt { .. } | Op::DropWriter | Op::RaceCreate { .. } | Op::KillWorker | Op::FaultyRollback | Op::WaitMergesRace => lock_op(e, op),
+        Op::CreateWriter { .. } | Op::NewWriterAttempt { .. } | Op::DropWriter | Op::RaceCreate { .. } | Op::KillWorker | Op::FaultyRollback | Op::WaitMergesRace | Op::DropRace => lock_op(e, op),
         Op::Fork(ps) => fork_op(e, ps),
         _ => {}
     }
